@@ -69,23 +69,26 @@ func bset3() []*big.Int { return []*big.Int{big.NewInt(0), big.NewInt(1), new(bi
 // ---------------------------------------------------------------------------------------
 
 type kase struct {
-	Part   string   `json:"part"`
-	Fork   string   `json:"fork"`
-	Entry  string   `json:"entry"`          // call | static | create | precompile | probe | bomb
-	Self   string   `json:"self,omitempty"` // "" = plain contract address, "miner" = account of a genesis validator
-	Bal    bool     `json:"bal,omitempty"`  // give the contract a balance of 100 coins (operations that move value)
-	Code   string   `json:"code,omitempty"` // hex: runtime code (call/static) or init code (create)
-	Input  string   `json:"input,omitempty"`
-	Gas    uint64   `json:"gas"`
-	Value  string   `json:"value,omitempty"`
-	Expect string   `json:"expect,omitempty"` // structural expectation, see judge()
-	Note   string   `json:"note,omitempty"`
-	Op     int      `json:"op,omitempty"`    // op under test (parts op / probe / bomb)
-	NArgs  int      `json:"nargs,omitempty"` // pushes between the two readings of a sandwich
-	Pre    int      `json:"pre,omitempty"`   // precompile number
-	Stack  []string `json:"stack,omitempty"` // probe: operand stack bottom first (hex)
-	MemLen uint64   `json:"memlen,omitempty"`
-	Bound  uint64   `json:"bound,omitempty"` // loop programs: iterations the gas limit can pay for
+	Part   string            `json:"part"`
+	Fork   string            `json:"fork"`
+	Entry  string            `json:"entry"`          // call | static | create | precompile | probe | bomb
+	Self   string            `json:"self,omitempty"` // "" = plain contract address, "miner" = account of a genesis validator
+	Bal    bool              `json:"bal,omitempty"`  // give the contract a balance of 100 coins (operations that move value)
+	Code   string            `json:"code,omitempty"` // hex: runtime code (call/static) or init code (create)
+	Input  string            `json:"input,omitempty"`
+	Gas    uint64            `json:"gas"`
+	Value  string            `json:"value,omitempty"`
+	Expect string            `json:"expect,omitempty"` // structural expectation, see judge()
+	Note   string            `json:"note,omitempty"`
+	Op     int               `json:"op,omitempty"`    // op under test (parts op / probe / bomb)
+	NArgs  int               `json:"nargs,omitempty"` // pushes between the two readings of a sandwich
+	Pre    int               `json:"pre,omitempty"`   // precompile number
+	Stack  []string          `json:"stack,omitempty"` // probe: operand stack bottom first (hex)
+	MemLen uint64            `json:"memlen,omitempty"`
+	Bound  uint64            `json:"bound,omitempty"` // loop programs: iterations the gas limit can pay for
+	Inner  string            `json:"inner,omitempty"` // read-only family: kind of the inner call made before the write attempt
+	To     string            `json:"to,omitempty"`    // top-level callee (hex address) when it is not the contract under test
+	Extra  map[string]string `json:"extra,omitempty"` // further contracts: hex address -> hex code
 }
 
 type obs struct {
@@ -210,8 +213,27 @@ func freshState(k *kase) *account.AccountDB {
 		if k.Bal {
 			st.SetBalance(x, new(big.Int).Mul(big.NewInt(100), one18))
 		}
+		for _, a := range extraKeys(k) {
+			st.SetCode(common.HexToAddress(a), unhex(k.Extra[a]))
+		}
 	}
 	return st
+}
+
+func extraKeys(k *kase) []string {
+	ks := make([]string, 0, len(k.Extra))
+	for a := range k.Extra {
+		ks = append(ks, a)
+	}
+	sort.Strings(ks)
+	return ks
+}
+
+func callee(k *kase) common.Address {
+	if k.To != "" {
+		return common.HexToAddress(k.To)
+	}
+	return target(k.Self)
 }
 
 var bumpRootCache = map[string]string{}
@@ -258,6 +280,9 @@ func execute(k *kase) (o obs) {
 	rk := k.Entry
 	if k.Entry != "create" {
 		rk = fmt.Sprintf("x|%s|%v|%s", k.Self, k.Bal, k.Code)
+		for _, a := range extraKeys(k) {
+			rk += "|" + a + "=" + k.Extra[a]
+		}
 	}
 	if r0, ok := root0Cache[rk]; ok {
 		o.Root0 = r0
@@ -286,10 +311,10 @@ func execute(k *kase) (o obs) {
 	o.Panicked, o.PanicVal, o.Site = try(func() {
 		switch k.Entry {
 		case "call":
-			r, l, lg, e := evm.Call(vm.AccountRef(origin), target(k.Self), input, k.Gas, value)
+			r, l, lg, e := evm.Call(vm.AccountRef(origin), callee(k), input, k.Gas, value)
 			ret, left, nlog, err = r, l, len(lg), e
 		case "static":
-			r, l, lg, e := evm.StaticCall(vm.AccountRef(origin), target(k.Self), input, k.Gas)
+			r, l, lg, e := evm.StaticCall(vm.AccountRef(origin), callee(k), input, k.Gas)
 			ret, left, nlog, err = r, l, len(lg), e
 		case "create":
 			r, _, l, lg, e := evm.Create(vm.AccountRef(origin), unhex(k.Code), k.Gas, value)
@@ -302,7 +327,7 @@ func execute(k *kase) (o obs) {
 	if err != nil {
 		o.ErrText = err.Error()
 	}
-	if !o.Panicked && (err != nil || k.Entry == "static") {
+	if !o.Panicked && (err != nil || k.Entry == "static" || strings.HasPrefix(k.Expect, "ro-")) {
 		var r1 common.Hash
 		p, v, site := try(func() { r1 = st.IntermediateRoot(true) })
 		if p {
@@ -525,7 +550,7 @@ func judge(k *kase, o obs) []finding {
 		add("C11:fail-keeps-gas:"+k.Entry, fmt.Sprintf("%s failed with %q and kept %d of %d gas", k.Entry, o.ErrText, o.GasLeft, k.Gas))
 	}
 	// a read-only frame either fails or leaves the state alone
-	if k.Entry == "static" && !failed && o.Root1 != "" && o.Root1 != o.Root0 {
+	if k.Entry == "static" && !failed && o.Root1 != "" && o.Root1 != o.Root0 && !strings.HasPrefix(k.Expect, "ro-") {
 		add("C11:static-write:"+staticWriter(k), fmt.Sprintf("STATICCALL frame succeeded and changed the state root %s -> %s (%s)", o.Root0, o.Root1, k.Note))
 	}
 	switch k.Expect {
@@ -560,6 +585,25 @@ func judge(k *kase, o obs) []finding {
 			add("C11:loop-not-bounded-by-gas:"+opName(k.Fork, k.Op), fmt.Sprintf("the loop JUMPDEST %s POP ... JUMP ran %d iterations with gas limit %d although the constant gas of one iteration allows at most %d (gas left %d): execution is not bounded by the gas supplied",
 				k.Note, n, k.Gas, k.Bound, o.GasLeft))
 		}
+	case "ro-direct": // evm.StaticCall straight into the frame that attempts the write
+		if o.Kind != "write-protection" {
+			add("C11:readonly-write-not-refused:"+roSubject(k), fmt.Sprintf("a write attempt in a read-only frame did not fail with write protection: err=%q, %d logs (%s)", o.ErrText, o.NLogs, k.Note))
+		}
+	case "ro-wrapped": // the writing frame is entered by a STATICCALL of a wrapper that returns (flag, gas before, gas after)
+		if !failed && len(o.Ret) == 96 {
+			flag, _ := u64At(o.Ret, 0)
+			g1, _ := u64At(o.Ret, 1)
+			g2, _ := u64At(o.Ret, 2)
+			switch {
+			case flag == 1 || o.NLogs != 0:
+				add("C11:readonly-write-not-refused:"+roSubject(k), fmt.Sprintf("STATICCALL into a frame that attempts a write reported success (flag %d, %d logs) (%s)", flag, o.NLogs, k.Note))
+			case flag == 0 && g2 > g1/64:
+				add("C11:readonly-fault-keeps-gas:"+roSubject(k), fmt.Sprintf("the frame refused for write protection gave gas back: caller had %d before and %d after forwarding all but 1/64 (%s)", g1, g2, k.Note))
+			}
+			if flag != 1 && o.NLogs == 0 && o.Root1 != "" && o.Root1 != o.Root0 {
+				add("C11:static-write:"+roSubject(k), fmt.Sprintf("state root changed %s -> %s although every write happened under a STATICCALL (%s)", o.Root0, o.Root1, k.Note))
+			}
+		}
 	case "jump-ok":
 		if failed {
 			add("C11:jump-analysis:valid-jumpdest-rejected", fmt.Sprintf("jump to a real JUMPDEST failed with %q (%s)", o.ErrText, k.Note))
@@ -579,7 +623,19 @@ func judge(k *kase, o obs) []finding {
 	return fs
 }
 
+// roSubject names what a read-only violation is attributed to: the write operation itself when
+// the frame does nothing else, the kind of inner call when the refusal is lost after one.
+func roSubject(k *kase) string {
+	if k.Inner != "" {
+		return "after-" + k.Inner
+	}
+	return opName(k.Fork, k.Op)
+}
+
 func staticWriter(k *kase) string {
+	if k.Inner != "" {
+		return roSubject(k)
+	}
 	if k.Op != 0 {
 		return opName(k.Fork, k.Op)
 	}
@@ -852,6 +908,7 @@ func main() {
 			"(depth) self-recursive CALL/CALLCODE/DELEGATECALL/STATICCALL/AUTHCALL/CREATE/CREATE2 x gas {1e7,9e8,1e14,1e16} x {Call,StaticCall}, depth read back from return data / log count; " +
 			"(value) CALL/CALLCODE/AUTHCALL (plain and authorized)/CREATE/CREATE2 with the value operand over {0,1,2^255-1,2^255,2^256-1} x gas {0,max} x target {0, precompile 1, funded account} x in/out size {0,32} on both tables, each as the sandwich (memory empty/32B) and as a self-counting loop JUMPDEST <args> OP POP .. JUMP that must run out of gas before it exceeds gasLimit/(constant gas of one iteration) iterations; " +
 			"(jump) jump-analysis boundary programs PUSH1 t JUMP | PUSH1 1 PUSH1 t JUMPI, STOP filler, JUMPDEST after the header and before the tail, tail PUSHn (n in {none,1,2,7,8,9,15,16,17,24,31,32}) with k in {0,1,n-1,n} data bytes 0x5b, every total length 6..72, targets = both real JUMPDESTs (must succeed) and the first/last push-data byte (must be an invalid jump), as contract code and as init code; " +
+			"(readonly) for every write-class operation of the jump table (writes flag, TSTORE, CALL with value) a frame [inner STATICCALL/CALL/DELEGATECALL/CALLCODE to {returning contract, reverting contract, codeless account, precompile} or none]; OP(1,..) entered by evm.StaticCall directly, and by STATICCALL from wrappers at static nesting 1 and 2 (entered through evm.StaticCall and through evm.Call), on both tables: the frame must fail with write protection, return no gas, no logs, state root unchanged; " +
 			"(create) every init code of length <=2 through Create (gas set), CREATE and CREATE2 (sandwich), code-deposit programs for every gas limit in a dense range through Create and through CREATE with an endowment; " +
 			"(pre) each of the 18 precompiles x every input of length <=2 x gas set, modexp length-field triples over a 15-value set x 5 payloads, blake2f rounds/flag/length, 33 boundary lengths x 3 fillings, and CALL/STATICCALL/DELEGATECALL to each precompile with boundary in/out sizes; " +
 			"(gasfn) memorySize+dynamicGas of every memory-touching operation evaluated through a hook without allocating: every (offset,length) pair over a 17-value set up to 2^256-1 x other operands {0,1,max} x memory {0,32B}, and a 2^25-byte grid of offsets/lengths up to 2^37 with bisection at every decrease, the cheapest huge growth found is executed in a sandboxed child process. " +
@@ -921,6 +978,7 @@ func run(c *fw.Ctx) {
 		{"depth", r.partDepth},
 		{"value", r.partValue},
 		{"jump", r.partJump},
+		{"readonly", r.partReadOnly},
 		{"create", r.partCreate},
 		{"pre", r.partPrecompiles},
 		{"code", r.partCode},
@@ -1448,6 +1506,105 @@ func (r *runner) partJump() {
 	}
 	r.sample(kase{Part: "jump", Fork: forkA, Entry: "call", Code: hx(jumpProgram(8, false, 3, []int{3, 6}, 32, 0)), Gas: 1000000, Expect: "jump-ok", Op: int(vm.JUMP),
 		Note: "JUMP to 3, code length 8, tail PUSH32 with 0 data bytes"})
+}
+
+// ---------------------------------------------------------------------------------------
+// part readonly: write attempts in read-only context, also after an inner call returned
+// ---------------------------------------------------------------------------------------
+
+var (
+	roD    = common.HexToAddress("0xc11c11c11c11c11c11c11c11c11c11c11c11c1d1") // wrapper: STATICCALLs the writing frame, returns (flag, gas before, gas after)
+	roP    = common.HexToAddress("0xc11c11c11c11c11c11c11c11c11c11c11c11c1d2") // wrapper: STATICCALLs roD and passes its return data on
+	roRet  = common.HexToAddress("0xc11c11c11c11c11c11c11c11c11c11c11c11c1e1") // contract that returns
+	roRev  = common.HexToAddress("0xc11c11c11c11c11c11c11c11c11c11c11c11c1e2") // contract that reverts
+	roNone = common.HexToAddress("0xc11c11c11c11c11c11c11c11c11c11c11c11c1e3") // account without code
+)
+
+func hexAddr(a common.Address) string { return "0x" + hx(a.Bytes()) }
+
+func (r *runner) partReadOnly() {
+	retCode := asm.New().Push(0).Push(0).Op(vm.RETURN).Bytes()
+	revCode := asm.New().Push(0).Push(0).Op(vm.REVERT).Bytes()
+	var pre4 common.Address
+	pre4[19] = 4
+	type inner struct {
+		op   vm.OpCode // 0 = no inner call
+		to   common.Address
+		name string
+	}
+	inners := []inner{{0, common.Address{}, "no inner call"}}
+	for _, op := range []vm.OpCode{vm.STATICCALL, vm.CALL, vm.DELEGATECALL, vm.CALLCODE} {
+		for _, t := range []struct {
+			a common.Address
+			n string
+		}{{roRet, "a contract that returns"}, {roRev, "a contract that reverts"}, {roNone, "an account without code"}, {pre4, "precompile 4"}} {
+			inners = append(inners, inner{op, t.a, nameOf(op) + " to " + t.n})
+		}
+	}
+	stakeFamily := map[vm.OpCode]bool{vm.STAKE: true, vm.UNSTAKE: true, vm.UNSTAKEALL: true}
+	for _, f := range []string{forkA, forkB} {
+		for _, oi := range tables[f] {
+			// write-class operations: flagged as writing in the jump table, or refusing by themselves in
+			// read-only mode (TSTORE), or CALL when it carries value
+			if !(oi.Writes || oi.Op == vm.TSTORE || oi.Op == vm.CALL) {
+				continue
+			}
+			self := ""
+			if stakeFamily[oi.Op] {
+				self = "miner"
+			}
+			body := target(self)
+			for _, in := range inners {
+				if !r.mine() {
+					continue
+				}
+				// the writing frame: [inner call; POP]; OP(1,1,...); STOP
+				b := asm.New()
+				if in.op != 0 {
+					b.Push(0).Push(0).Push(0).Push(0)
+					if in.op == vm.CALL || in.op == vm.CALLCODE {
+						b.Push(0)
+					}
+					b.PushN(20, in.to.Bytes()).Push(100000).Op(in.op).Op(vm.POP)
+				}
+				for i := 0; i < oi.Pops; i++ {
+					b.Push(1)
+				}
+				b.Op(oi.Op).Op(vm.STOP)
+				// wrapper D: GAS; STATICCALL(GAS, body, 0,0,0,0); GAS; return (flag, g1, g2)
+				d := asm.New().Op(vm.GAS).Push(0).Push(0).Push(0).Push(0).PushN(20, body.Bytes()).Op(vm.GAS).Op(vm.STATICCALL).Op(vm.GAS)
+				d.Push(0x40).Op(vm.MSTORE).Push(0x00).Op(vm.MSTORE).Push(0x20).Op(vm.MSTORE).Push(0x60).Push(0).Op(vm.RETURN)
+				// wrapper P: STATICCALL(GAS, D, 0,0, 0,96); ok ? return mem[0:96] : return (2,0,0)
+				pw := asm.New().Push(0x60).Push(0).Push(0).Push(0).PushN(20, roD.Bytes()).Op(vm.GAS).Op(vm.STATICCALL)
+				pw.PushLabel("ok").Op(vm.JUMPI).Push(2).Push(0).Op(vm.MSTORE).Label("ok").Push(0x60).Push(0).Op(vm.RETURN)
+				extra := map[string]string{hexAddr(roD): hx(d.Bytes()), hexAddr(roP): hx(pw.Bytes()), hexAddr(roRet): hx(retCode), hexAddr(roRev): hx(revCode)}
+				note := fmt.Sprintf("%s; then %s(1,..)", in.name, oi.Name)
+				innerName := ""
+				if in.op != 0 {
+					innerName = nameOf(in.op)
+				}
+				cfgs := []struct {
+					entry, to, expect, how string
+				}{
+					{"static", "", "ro-direct", "evm.StaticCall -> writer"},
+					{"static", hexAddr(roD), "ro-wrapped", "evm.StaticCall -> STATICCALL -> writer"},
+					{"call", hexAddr(roD), "ro-wrapped", "evm.Call -> STATICCALL -> writer"},
+					{"call", hexAddr(roP), "ro-wrapped", "evm.Call -> STATICCALL -> STATICCALL -> writer"},
+				}
+				for _, cf := range cfgs {
+					o := r.run(&kase{Part: "readonly", Fork: f, Entry: cf.entry, Self: self, Bal: true, Code: hx(b.Bytes()), Gas: 10000000, To: cf.to,
+						Extra: extra, Expect: cf.expect, Op: int(oi.Op), Inner: innerName, Note: cf.how + ": " + note})
+					r.nontriv++
+					if cf.expect == "ro-wrapped" && !(o.Kind == "" && len(o.Ret) == 96 && o.Ret[31] <= 1) {
+						r.c.Outcome("readonly/unjudged-wrapper-result")
+					}
+				}
+			}
+		}
+	}
+	r.sample(kase{Part: "readonly", Fork: forkA, Entry: "static", Bal: true, Gas: 10000000, Expect: "ro-direct", Op: int(vm.SSTORE),
+		Code:  hx(asm.New().Push(0).Push(0).Push(0).Push(0).PushN(20, roRet.Bytes()).Push(100000).Op(vm.STATICCALL).Op(vm.POP).Push(1).Push(1).Op(vm.SSTORE).Op(vm.STOP).Bytes()),
+		Extra: map[string]string{hexAddr(roRet): hx(retCode)}, Inner: "STATICCALL", Note: "evm.StaticCall -> writer: STATICCALL to a contract that returns; then SSTORE(1,..)"})
 }
 
 func (r *runner) partStack() {
